@@ -561,3 +561,63 @@ theorem groupByBin_sortFiles_flatten (w : Nat) (l : List FileRec) :
   groupAux_flatten_of_binSorted w _ _ (le_refl _) (sortFiles_binSorted w l)
 
 end FS
+
+namespace FS
+open TM
+
+/-! ### one bundle per frequency bin, bins ascending -/
+
+theorem groupAux_mem (w : Nat) (fuel : Nat) (l : List FileRec) (h : l.length ≤ fuel) :
+    ∀ b ∈ groupAux w fuel l, ∀ f ∈ b, f ∈ l := by
+  intro b hb f hf
+  exact ((groupAux_props w fuel l h).1.mem_iff).mp (List.mem_flatten.mpr ⟨b, hb, hf⟩)
+
+theorem groupAux_ascending (w : Nat) :
+    ∀ (fuel : Nat) (l : List FileRec), l.length ≤ fuel →
+      (groupAux w fuel l).Pairwise (fun x y => ∀ f ∈ x, ∀ g ∈ y, binOf w f < binOf w g) := by
+  intro fuel
+  induction fuel with
+  | zero => intro l h; simp at h; subst h; simp [groupAux]
+  | succ k ih =>
+    intro l h
+    cases l with
+    | nil => simp [groupAux]
+    | cons a t =>
+      simp only [groupAux]
+      generalize hb : (t.map (binOf w)).foldl min (binOf w a) = b
+      have hmin : ∀ x ∈ a :: t, b ≤ binOf w x := by
+        intro x hx
+        obtain ⟨h1, h2⟩ := foldl_min_le (t.map (binOf w)) (binOf w a)
+        rw [hb] at h1 h2
+        rcases List.mem_cons.mp hx with e | e
+        · subst e; exact h1
+        · exact h2 _ (List.mem_map.mpr ⟨x, e, rfl⟩)
+      have hmem : ∃ g ∈ a :: t, binOf w g = b := by
+        rcases foldl_min_mem (t.map (binOf w)) (binOf w a) with h1 | h1
+        · exact ⟨a, by simp, by rw [← hb, h1]⟩
+        · rw [hb] at h1
+          obtain ⟨g, hg, e⟩ := List.mem_map.mp h1
+          exact ⟨g, List.mem_cons_of_mem _ hg, e⟩
+      have hlen : ((a :: t).filter fun g => binOf w g != b).length ≤ k := by
+        obtain ⟨g, hg, e⟩ := hmem
+        have : ((a :: t).filter fun g => binOf w g != b).length < (a :: t).length := by
+          apply List.length_filter_lt_length_iff_exists.mpr
+          exact ⟨g, hg, by simp [e]⟩
+        simp only [List.length_cons] at h this
+        omega
+      rw [List.pairwise_cons]
+      refine ⟨?_, ih _ hlen⟩
+      intro y hy f hf g hg
+      have hg' := groupAux_mem w k _ hlen y hy g hg
+      obtain ⟨hgl, hgb⟩ := List.mem_filter.mp hg'
+      have hfb := (List.mem_filter.mp hf).2
+      simp only [beq_iff_eq] at hfb
+      simp only [bne_iff_ne, ne_eq] at hgb
+      have := hmin g hgl
+      omega
+
+theorem groupByBin_ascending (w : Nat) (l : List FileRec) :
+    (groupByBin w l).Pairwise (fun x y => ∀ f ∈ x, ∀ g ∈ y, binOf w f < binOf w g) :=
+  groupAux_ascending w l.length l (le_refl _)
+
+end FS
